@@ -42,7 +42,7 @@ func (p *prover) callPost(name string, c *ssa.Call, idx int) {
 		if n != "strings.IndexFunc" {
 			if sl, ok := args[0].(*ssa.Slice); ok && sl.Low != nil && sl.High == nil {
 				if c2, ok := constInt(args[1]); ok {
-					if c1, known := charAt(sl.X, sl.Low); known && c1 != c2 {
+					if c1, known := charAt(sl.X, sl.Low, c.Block()); known && c1 != c2 {
 						p.neqs = append(p.neqs, neq{r, fmt.Sprintf("s[lo] == %q, so %q is not found at offset 0", rune(c1), rune(c2))})
 					}
 				}
@@ -65,7 +65,38 @@ func (p *prover) callPost(name string, c *ssa.Call, idx int) {
 }
 
 // charAt: the character known to be at s[pos] because pos was produced by searching for it.
-func charAt(s ssa.Value, pos ssa.Value) (int64, bool) {
+// Phis pinned by a guard dominating `at` (the index result of an inlined helper after its -1
+// check) are followed to the value they carry.
+func charAt(s ssa.Value, pos ssa.Value, at *ssa.BasicBlock) (int64, bool) {
+	norm := func(v ssa.Value) ssa.Value {
+		for i := 0; i < 4; i++ {
+			if at != nil {
+				v = resolveUnderGuards(v, at)
+			}
+			// x + 0, 0 + x
+			if b, ok := v.(*ssa.BinOp); ok && b.Op == token.ADD {
+				if isConstInt(b.X, 0) {
+					v = b.Y
+					continue
+				}
+				if isConstInt(b.Y, 0) {
+					v = b.X
+					continue
+				}
+			}
+			break
+		}
+		return v
+	}
+	same := func(a, b ssa.Value) bool {
+		a, b = norm(a), norm(b)
+		if a == b {
+			return true
+		}
+		ka, okA := constInt(a)
+		kb, okB := constInt(b)
+		return okA && okB && ka == kb
+	}
 	res := func(v ssa.Value) (*ssa.Call, bool) {
 		if c, ok := v.(*ssa.Call); ok {
 			n := calleeName(c)
@@ -75,13 +106,20 @@ func charAt(s ssa.Value, pos ssa.Value) (int64, bool) {
 		}
 		return nil, false
 	}
-	if c, ok := res(pos); ok && c.Call.Args[0] == s {
-		return constInt(c.Call.Args[1])
+	pos = norm(pos)
+	// searched in s itself (or in s[0:])
+	if c, ok := res(pos); ok {
+		if c.Call.Args[0] == s {
+			return constInt(c.Call.Args[1])
+		}
+		if sl, ok := c.Call.Args[0].(*ssa.Slice); ok && sl.X == s && sl.High == nil && (sl.Low == nil || isConstInt(norm(sl.Low), 0)) {
+			return constInt(c.Call.Args[1])
+		}
 	}
 	if b, ok := pos.(*ssa.BinOp); ok && b.Op == token.ADD {
 		for _, pair := range [][2]ssa.Value{{b.X, b.Y}, {b.Y, b.X}} {
-			if c, ok := res(pair[0]); ok {
-				if sl, ok := c.Call.Args[0].(*ssa.Slice); ok && sl.X == s && sl.Low == pair[1] && sl.High == nil {
+			if c, ok := res(norm(pair[0])); ok {
+				if sl, ok := c.Call.Args[0].(*ssa.Slice); ok && sl.X == s && sl.Low != nil && same(sl.Low, pair[1]) && sl.High == nil {
 					return constInt(c.Call.Args[1])
 				}
 			}
